@@ -59,6 +59,25 @@ def _wrapped_svd_qn(coef_array, qnbigl, qnbigr, qntot, QR=False, system=None, fu
             shape_ok = (u.shape == (rows, k) and v.shape == (cols, k) and len(s) == k and len(ql) == k and len(qr_) == k
                         and (full_matrices or k <= min(rows, cols))
                         and bool(np.all(np.asarray(s) >= 0)) and bool(np.all(np.diff(np.asarray(s)) <= 1e-12 * max(1.0, float(np.max(s)) if k else 1.0))))
+        # block (label) contract, exact on integers: column a of U is supported on rows labelled qnlset[a],
+        # column a of V on columns labelled qnrset[a], and qnlset[a] + qnrset[a] = qntot
+        if not (not QR and full_matrices):
+            lql = np.asarray(qnbigl).reshape(-1, len(qntot))
+            lqr = np.asarray(qnbigr).reshape(-1, len(qntot))
+            nl = np.asarray(ql).reshape(k, -1) if k else np.zeros((0, len(qntot)), dtype=int)
+            nr = np.asarray(qr_).reshape(k, -1) if k else np.zeros((0, len(qntot)), dtype=int)
+            lab_ok = bool(np.all(nl + nr == np.asarray(qntot)))
+            su = np.asarray(u) != 0
+            sv = np.asarray(v) != 0
+            for a_ in range(k):
+                if not (np.all(lql[su[:, a_]] == nl[a_]) and np.all(lqr[sv[:, a_]] == nr[a_])):
+                    lab_ok = False
+                    break
+            STATE["label_calls"] = STATE.get("label_calls", 0) + 1
+            if not lab_ok:
+                STATE["label_bad"] = STATE.get("label_bad", 0) + 1
+                if len(STATE["bad"]) < 5:
+                    STATE["bad"].append({"label_contract": "violated", "mode": "QR" if QR else "SVD", "system": system, "rows": rows, "cols": cols})
         if k < min(rows, cols):
             STATE["blocks_deficient"] += 1
         STATE["maxres"] = max(STATE["maxres"], float(res))
@@ -84,10 +103,14 @@ def _wrapped_push(self, idx):
     return _orig_push(self, idx)
 
 
-def _wrapped_upd(self, idx, *a, **k):
+def _wrapped_upd(self, idx, u, vt, sigma=None, qnlset=None, qnrset=None, m_trunc=None):
     if STATE["trace_upd"] is not None:
         STATE["trace_upd"].append(int(idx))
-    return _orig_upd(self, idx, *a, **k)
+        if STATE.get("news") is not None:
+            lab = qnlset if self.to_right else qnrset
+            m = u.shape[1] if m_trunc is None else m_trunc
+            STATE["news"].append(None if lab is None else [[int(x) for x in np.atleast_1d(q)] for q in list(lab)[:m]])
+    return _orig_upd(self, idx, u, vt, sigma=sigma, qnlset=qnlset, qnrset=qnrset, m_trunc=m_trunc)
 
 
 def install():
@@ -114,6 +137,36 @@ def site_iso(a, left, scaled):
     return float(np.abs(g - np.eye(k)).max())
 
 
+def labels_of(mp):
+    return [[[int(x) for x in np.atleast_1d(q)] for q in np.atleast_2d(np.asarray(b))] for b in mp.qn]
+
+
+def qn_valid(mp):
+    """independent recomputation: every non-zero entry obeys the label rule of its position relative to qnidx
+    (left of the centre ql+sigma = qr, centre ql+sigma+qr = qntot, right of it sigma+qr = ql)"""
+    tot = np.asarray(mp.qntot).reshape(-1)
+    c = int(mp.qnidx)
+    for j, mt in enumerate(mp):
+        a = np.asarray(mt.array)
+        ql = np.asarray(mp.qn[j]).reshape(a.shape[0], -1)
+        qr = np.asarray(mp.qn[j + 1]).reshape(a.shape[-1], -1)
+        sg = np.asarray(mp._get_sigmaqn(j)).reshape(-1, len(tot))
+        t = a.reshape(a.shape[0], -1, a.shape[-1])
+        nz = np.argwhere(t != 0)
+        if len(nz) == 0:
+            continue
+        L, S, Rr = ql[nz[:, 0]], sg[nz[:, 1]], qr[nz[:, 2]]
+        if j < c:
+            ok = np.all(L + S == Rr)
+        elif j == c:
+            ok = np.all(L + S + Rr == tot)
+        else:
+            ok = np.all(S + Rr == L)
+        if not ok:
+            return False
+    return True
+
+
 def snapshot(mp):
     return {"dense": G.dense(mp), "dims": [int(x) for x in mp.bond_dims], "qntot": np.array(mp.qntot).copy(),
             "coeff": complex(getattr(mp, "coeff", 1)), "n": len(mp), "qnidx": int(mp.qnidx), "to_right": bool(mp.to_right)}
@@ -134,6 +187,7 @@ class Case:
     def __init__(self, ci, spec, out):
         self.ci, self.spec, self.out = ci, spec, out
         self.nfail = 0
+        self.labkeys = set()
 
     def fail(self, cls, op, detail):
         self.nfail += 1
@@ -146,6 +200,12 @@ class Case:
         """run fn() on mp with schedule logging; returns (result or None, record)"""
         rec = {"op": name, "n": len(mp), "q0": int(mp.qnidx), "d0": bool(mp.to_right), "args": args, "case": self.ci}
         STATE["trace_push"], STATE["trace_upd"] = [], []
+        lkey = name + ("" if args.get("stop") is None else ":stop")
+        want_labels = (name in ("cano", "compress") and lkey not in self.labkeys
+                       and self.out["stats"].get("label_ops", 0) < self.out.get("label_budget", 0))
+        STATE["news"] = [] if want_labels else None
+        qn0 = labels_of(mp) if want_labels else None
+        valid0 = qn_valid(mp)
         try:
             res = fn()
             rec["exc"] = None
@@ -156,6 +216,18 @@ class Case:
         rec["push"], rec["upd"] = STATE["trace_push"], STATE["trace_upd"]
         STATE["trace_push"], STATE["trace_upd"] = None, None
         rec["q1"], rec["d1"] = int(mp.qnidx), bool(mp.to_right)
+        st = self.out["stats"]
+        if rec["exc"] is None:
+            st["qn_valid_checked"] = st.get("qn_valid_checked", 0) + 1
+            if valid0:
+                st["qn_valid_before"] = st.get("qn_valid_before", 0) + 1
+                if not qn_valid(mp):
+                    self.fail("qn_valid", name, {"args": args, "qnidx_before": rec["q0"], "qnidx_after": rec["q1"]})
+            if want_labels and rec["upd"] and all(x is not None for x in STATE["news"]):
+                st["label_ops"] = st.get("label_ops", 0) + 1
+                self.labkeys.add(lkey)
+                rec["lab"] = {"qn0": qn0, "news": STATE["news"], "qn1": labels_of(mp), "size": int(len(np.asarray(mp.qntot).reshape(-1)))}
+        STATE["news"] = None
         self.out["ops"].append(rec)
         self.out["stats"]["ops"] = self.out["stats"].get("ops", 0) + 1
         return res, rec
@@ -337,7 +409,9 @@ def replay(spec):
         print("FAIL", f["class"], f["op"], json.dumps(f["detail"], default=str)[:300])
     if STATE.get("nbad"):
         print("CONTRACT", STATE["bad"][:2])
-    return 1 if (c.nfail or STATE.get("nbad")) else 0
+    if STATE.get("label_bad"):
+        print("LABEL CONTRACT violated on", STATE["label_bad"], "calls")
+    return 1 if (c.nfail or STATE.get("nbad") or STATE.get("label_bad")) else 0
 
 
 def emit(payload, out):
@@ -354,7 +428,7 @@ def emit(payload, out):
 def main():
     payload = json.load(sys.stdin)
     install()
-    out = {"ops": [], "fails": [], "stats": {}, "features": []}
+    out = {"ops": [], "fails": [], "stats": {}, "features": [], "label_budget": int(payload.get("label_budget", 0))}
     for ci, spec in payload["specs"]:
         try:
             run_case(ci, spec, out)
@@ -364,7 +438,8 @@ def main():
             out["stats"]["fail_harness"] = out["stats"].get("fail_harness", 0) + 1
     out["stats"].update({"svd_qn_calls": STATE["calls"], "qr_calls": STATE["qr"], "svd_calls": STATE["svd"],
                          "contract_bad": STATE.get("nbad", 0), "contract_max_residual": STATE["maxres"],
-                         "contract_max_orth_dev": STATE["maxorth"], "calls_rank_deficient": STATE["blocks_deficient"]})
+                         "contract_max_orth_dev": STATE["maxorth"], "calls_rank_deficient": STATE["blocks_deficient"],
+                         "label_contract_calls": STATE.get("label_calls", 0), "label_contract_bad": STATE.get("label_bad", 0)})
     out["contract_bad"] = STATE["bad"]
     for r in out["ops"]:
         r.pop("tb", None)
